@@ -481,6 +481,9 @@ class CallMixin:  # pylint:disable=too-many-public-methods
                 return None
         if isinstance(r, Obj) and r.cls in ("lark.Tree",):
             return self.tree_method(r, a, args, kwargs, node, frame)
+        if isinstance(r, CoroVal) and a == "close":
+            r.awaited = True
+            return None
         if isinstance(r, Obj) and r.cls == "builtins.super":
             return None
         if isinstance(r, Obj) and r.cls == "re.Pattern":
